@@ -659,14 +659,14 @@ func init() {
 		},
 		Cases: func(tier string) int {
 			if tier == "thorough" {
-				return 1000
+				return 1600
 			}
 			return 96
 		},
 		Run: func(c *fw.Ctx) {
 			n, texts, exh := 16, 300, 4
 			if c.Tier == "thorough" {
-				n, texts, exh = 25, 600, 5
+				n, texts, exh = 25, 1000, 5
 			}
 			for i := 0; i < n; i++ {
 				c09RuleSet(c, c.SubRand(i), texts, exh)
